@@ -281,8 +281,22 @@ def contract_extents(orc, itype):
     nc = sum(int(np.prod(c.ufl_shape)) if c.ufl_shape else 1 for c in orc.constants)
     nx = m * 3 * orc.coord_element.dim // orc.coord_element.reference_value_shape[0]
     ne = 0 if itype == "cell" else m
+    # exterior-facet / ridge kernels whose descriptor sets needs_facet_permutations (mixed-dimensional forms) are given one
+    # permutation code by the caller: callers of contract_extents raise "perm" to 1 for those kernels
     npm = 2 if itype == "interior_facet" else 0
     return {"A": nA, "w": nw, "c": nc, "x": nx, "ent": ne, "perm": npm}
+
+
+def parse_integral_flags(source):
+    """{form symbol: [needs_facet_permutations of each kernel in descriptor order]} parsed from generated C."""
+    import re
+
+    flag = {m.group(1): m.group(2) == "true"
+            for m in re.finditer(r"ufcx_integral (\w+) =\s*\{[^}]*?\.needs_facet_permutations = (true|false)", source, re.S)}
+    out = {}
+    for m in re.finditer(r"static ufcx_integral\* form_integrals_(\w+)\[\d+\] = \{([^}]*)\};", source):
+        out[m.group(1)] = [flag.get(t.strip().lstrip("&")) for t in m.group(2).split(",") if t.strip()]
+    return out
 
 
 def parse_form_tables(source):
